@@ -163,6 +163,17 @@ pub fn scenario(g: &mut G, ctx: &RunCtx) -> RunReport {
         Coding::Unknown => *g.pick(&["br", "identity", "zstd", "compress"]),
         Coding::None => "",
     };
+    // (no draw) HTAB is optional whitespace as well: before the value, after it, between list members
+    let tabbed: String = match (wire_body.len() + payload.len()) % 7 {
+        0 if !label.is_empty() => format!("\t{}", label.trim()),
+        1 if !label.is_empty() => format!("{}\t", label.trim()),
+        2 if label.contains(", ") => label.replace(", ", ",\t"),
+        _ => label.to_string(),
+    };
+    if tabbed.contains('\t') {
+        g.probe("coding-label-with-htab-as-whitespace");
+    }
+    let label: &str = &tabbed;
     // declared as Content-Encoding, or as a transfer coding before chunked
     let as_te = framing == Framing::Chunked && matches!(coding, Coding::Gzip | Coding::Deflate) && g.chance(1, 4);
     let mut headers: Vec<(String, Vec<u8>)> = bodyx::gen_extra_headers(g);
